@@ -3,13 +3,13 @@
 Require Import KV.Sparql.Base KV.Sparql.Syntax KV.Sparql.MuProofs KV.Sparql.JoinProofs KV.Sparql.Algebra KV.Sparql.Engine
         KV.Sparql.Lowering KV.Sparql.PlanEquiv KV.Sparql.Sem KV.Sparql.Bridge KV.Sparql.Classes KV.Sparql.ScanProofs
         KV.Sparql.BgpProofs KV.Sparql.HashProofs KV.Sparql.SemProofs KV.Sparql.ExecLemmas KV.Sparql.BridgeProofs
-        KV.Sparql.GroupProofs KV.Sparql.EngineProofs KV.Sparql.PlanProofs.
+        KV.Sparql.IdemProofs KV.Sparql.GroupProofs KV.Sparql.EngineProofs KV.Sparql.PlanProofs.
 Require Import Permutation.
 
 (* the part of the fragment decided on the query alone *)
 Definition proved_fragment (q : query) : bool :=
   let s := q_sel q in
-  fragB None (sel_where s) && ok_in [] (lower_query s) && nodup_groups (lower_query s).
+  fragB None (sel_where s) && ok_in [] (lower_query s).
 
 Lemma lowering_is_algebra : forall ds q, dataset_ok ds ->
   let vw := mk_view ds (q_from q) (q_from_named q) in
@@ -23,6 +23,12 @@ Proof.
   rewrite !join_unit_l in H by (try apply sem_wf; try apply eval_wf). exact H.
 Qed.
 
+Lemma dataset_ok_sets : forall ds, dataset_ok ds -> store_sets ds.
+Proof.
+  intros ds [_ OK2] n. cbn [graph_triples]. destruct (graph_of (d_named ds) n) as [ts|] eqn:E; [|constructor].
+  eapply OK2. apply graph_of_in. exact E.
+Qed.
+
 Lemma pattern_correct : forall ds q p, dataset_ok ds ->
   let vw := mk_view ds (q_from q) (q_from_named q) in
   let ev := mk_eview ds (q_from q) (q_from_named q) in
@@ -32,9 +38,9 @@ Lemma pattern_correct : forall ds q p, dataset_ok ds ->
   exec ds ev None p [[]] ≡ₚ eval vw None (sel_where (q_sel q)).
 Proof.
   intros ds q p OK vw ev PF AG IMP. unfold proved_fragment in PF.
-  apply andb_true_iff in PF. destruct PF as [PF NG]. apply andb_true_iff in PF. destruct PF as [FR OKI].
+  apply andb_true_iff in PF. destruct PF as [FR OKI].
   eapply perm_trans.
-  - apply implements_sem; eauto. apply ev_named_nodup. exact OK.
+  - apply implements_sem; eauto; [apply ev_named_nodup; exact OK | apply dataset_ok_sets; exact OK].
   - apply lowering_is_algebra; auto.
 Qed.
 
@@ -100,3 +106,10 @@ Lemma example_ok :
   proved_fragment wq_ok = true /\ agree (mk_view wds1 [] []) None (sel_where (q_sel wq_ok)) = true /\
   wimpl wq_ok = true /\ List.length (wspec wds1 wq_ok) = 3%nat.
 Proof. vm_compute. repeat split; reflexivity. Qed.
+
+(* the witness of C01-group-by-without-aggregate on the model: finalize_select does not group when no aggregate is projected *)
+Definition wsel_gb : sel := Sel false (Some [PVar 0%N]) (PGroup [PBgp [(TV 0%N, TC (E "p3"), TV 1%N)]]) [0%N] [] None.
+Definition wrows_gb : list mu := [[(0%N, E "s1"); (1%N, "1")]; [(0%N, E "s1"); (1%N, "2")]; [(0%N, E "s2"); (1%N, "3")]].
+Lemma refuted_gb :
+  List.length (finalize_select wsel_gb wrows_gb) = 3%nat /\ List.length (render (columns wsel_gb) (modifiers wsel_gb wrows_gb)) = 2%nat.
+Proof. vm_compute. split; reflexivity. Qed.
